@@ -183,6 +183,7 @@ type vcCase struct {
 	mu     sync.Mutex
 	parked []*vcParked
 	gidReq map[string]int // goroutine id -> request whose processResult it is running
+	gidCall map[string]int // goroutine id of a user call (envCallWith) -> the call's number: a caller goroutine is named by the CALL it runs, never by the wire id the connection drew for it
 	conn   *jsonrpc2.Connection
 
 	reqNo     map[*jsonrpc.Request]int
@@ -265,6 +266,9 @@ func (c *vcCase) subjectName(site string, subj any) string {
 		}
 		return fmt.Sprintf("K1:%v", subj.(jsonrpc2.ID).Raw())
 	case "C1", "R":
+		if n, ok := c.callOfGoroutine(); ok {
+			return fmt.Sprintf("%s:c%d", site, n)
+		}
 		return fmt.Sprintf("%s:c%v", site, subj.(*jsonrpc2.AsyncCall).ID().Raw())
 	case "N1", "N2":
 		switch p := subj.(type) {
@@ -288,10 +292,22 @@ func (c *vcCase) subjectName(site string, subj any) string {
 	return site + ":?"
 }
 
+// callOfGoroutine: the number of the user call whose goroutine is running (Connection.Call registers,
+// writes and retires on the caller's goroutine).
+func (c *vcCase) callOfGoroutine() (int, bool) {
+	c.mu.Lock()
+	defer c.mu.Unlock()
+	n, ok := c.gidCall[vcGid()]
+	return n, ok
+}
+
 func (c *vcCase) msgWho(m jsonrpc.Message) string {
 	switch m := m.(type) {
 	case *jsonrpc.Request:
 		if m.IsCall() {
+			if n, ok := c.callOfGoroutine(); ok {
+				return fmt.Sprintf("c%d", n)
+			}
 			return fmt.Sprintf("c%v", m.ID.Raw())
 		}
 		if m.Method == notificationCancelled {
@@ -505,6 +521,9 @@ func (c *vcCase) envCallWith(params Params) string {
 				c.panics = append(c.panics, fmt.Sprint(r))
 			}
 		}()
+		c.mu.Lock()
+		c.gidCall[vcGid()] = cl.n
+		c.mu.Unlock()
 		var res vcResult
 		err := call(ctx, c.conn, "m", params, &res)
 		cl.res = vcClassify(err, &res)
@@ -744,7 +763,7 @@ func (c *vcCase) releaseParked(p *vcParked, force bool) (string, string) {
 
 func vcRunCase(t *testing.T, out *verifOut, cs string, rng *rand.Rand, script []string) {
 	c := &vcCase{t: t, rng: rng, reqNo: map[*jsonrpc.Request]int{}, reqCtx: map[int]context.Context{},
-		respFor: map[string]int{}, gidReq: map[string]int{}, rdSlot: make(chan vcRead), xnotifs: map[int]*vcNotif{}, nextPeer: 1, handlerAs: map[int]bool{}}
+		respFor: map[string]int{}, gidReq: map[string]int{}, gidCall: map[string]int{}, rdSlot: make(chan vcRead), xnotifs: map[int]*vcNotif{}, nextPeer: 1, handlerAs: map[int]bool{}}
 	jsonrpc2.VerifHook = func(_ *jsonrpc2.Connection, site string, subj any) {
 		name := c.subjectName(site, subj)
 		if site == "N1" {
@@ -809,6 +828,15 @@ func vcRunCase(t *testing.T, out *verifOut, cs string, rng *rand.Rand, script []
 		storm = 9 + rng.Intn(5)
 		envBudget, maxSteps = 3*storm, 60+12*storm
 	}
+	// "backlog" cases: while a handler that has not declared itself asynchronous is running (the
+	// dispatcher waits for it), it is not released and the reader is preferred, so that the handler queue
+	// grows to several messages (calls, notifications, cancellations of calls that are still queued)
+	// before anything is dispatched; the backlog is then worked off in PRNG order as usual.
+	backlog := 0
+	if script == nil && storm == 0 && rng.Intn(6) == 0 {
+		backlog = 4 + rng.Intn(5)
+		envBudget += backlog
+	}
 	step := func(force bool) bool {
 		synctest.Wait()
 		type opt struct {
@@ -842,7 +870,20 @@ func vcRunCase(t *testing.T, out *verifOut, cs string, rng *rand.Rand, script []
 			if storm > 0 && !force && strings.HasPrefix(p.name, "WR:x") {
 				continue // the writer is stalled for cancellation notices
 			}
+			if backlog > 0 && !force && snap.HandlerRunning && len(snap.Queue) < backlog && strings.HasPrefix(p.name, "H:") {
+				if r, _ := strconv.Atoi(strings.TrimPrefix(p.name, "H:r")); !c.handlerAs[r] {
+					continue // the synchronous handler is held while the backlog builds up
+				}
+			}
 			opts = append(opts, opt{func() (string, string) { return c.releaseParked(p, force) }})
+		}
+		if backlog > 0 && !force && envBudget > 0 && snap.HandlerRunning && len(snap.Queue) < backlog && rng.Intn(2) == 0 {
+			if p := c.find("RD"); p != nil {
+				envBudget--
+				op := c.readAction(snap)
+				c.emit(out, cs, op, strings.Join(strings.Fields(op)[:2], "-"), "backlog")
+				return true
+			}
 		}
 		if storm > 0 && !force && envBudget > 0 && len(c.calls) < storm && rng.Intn(2) == 0 {
 			envBudget--
